@@ -439,7 +439,7 @@ def run(ctx: core.Ctx):
     pr = core.check_proofs(ctx, "Props/C14", headers=[HEADER])
     loop = asyncio.new_event_loop()
     witness, disagreements = None, []
-    nprog = 60 if ctx.quick else 1500
+    nprog = 60 if ctx.quick else 450
     programs, results = [], []
     kinds = {}
     try:
